@@ -129,6 +129,15 @@ func (s *Socket) RecvMsg(b []byte) (int, Msg, error) {
 		return 0, msg, err
 	}
 	if flags&(syscall.MSG_TRUNC|syscall.MSG_CTRUNC) != 0 {
+		// the message is rejected, but the kernel has already installed the descriptors
+		// that fit into the control buffer: close them instead of leaking them
+		if msgs, err := syscall.ParseSocketControlMessage(s.recvBuff[:oobn]); err == nil {
+			if m, err := parseMsg(msgs); err == nil {
+				for _, fd := range m.Fds {
+					syscall.Close(fd)
+				}
+			}
+		}
 		return 0, msg, errMessageTruncated
 	}
 	// parse oob msg
